@@ -5,7 +5,7 @@
 // current /repo working tree, and runs it once per case.  One case = (workload, GOMAXPROCS, seed,
 // iterations, goroutines); its single op `run` yields
 //
-//	ok <race|norace> <same-results|differ|panic|nondeterministic-reference|incomplete>
+//	ok <race|norace> <same-results|differ|panic|fatal|aborted|nondeterministic-reference|incomplete>
 //
 // where `race` = the race detector printed at least one `WARNING: DATA RACE` and the second word
 // compares every goroutine's result with the sequential run of the same workload.
@@ -15,6 +15,7 @@ import (
 	"bytes"
 	"context"
 	"crypto/sha1"
+	"encoding/json"
 	"fmt"
 	"os"
 	"os/exec"
@@ -54,7 +55,90 @@ func envOr(k, dflt string) string {
 
 // Workloads in the order the generators use them.
 var Workloads = []string{"hashtable-iterate", "set-iterate", "first-follow", "grammar-transform", "ll1-table",
-	"lr-slr", "lr-lalr", "lr-canonical", "automata-determinize", "hash-api", "structures", "mixed"}
+	"lr-slr", "lr-lalr", "lr-canonical", "automata-determinize", "hash-api", "ordered-tables", "tries", "heaps",
+	"lexer-input", "structures", "mixed"}
+
+// apiPrefixes: which exported API entries (names as in the regenerated table, by prefix) a workload calls
+// directly.  Used ONLY to order the witness search (workloads that reach a flagged package-level variable
+// first); the Model's prediction uses the exact list in lean/AlgoVerif/Model/C20.lean.
+var apiPrefixes = map[string][]string{
+	"hashtable-iterate":    {"symboltable.NewChainHashTable", "symboltable.NewLinearHashTable", "symboltable.NewQuadraticHashTable", "symboltable.NewDoubleHashTable", "symboltable.chainHashTable.", "symboltable.linearHashTable.", "symboltable.quadraticHashTable.", "symboltable.doubleHashTable.", "hash.HashFuncForInt", "hash.HashFuncForString"},
+	"set-iterate":          {"set."},
+	"first-follow":         {"grammar.NewCFG", "grammar.CFG.ComputeF", "grammar.CFG.NullableNonTerminals"},
+	"grammar-transform":    {"grammar.NewCFG", "grammar.CFG.", "grammar.Productions."},
+	"ll1-table":            {"grammar.NewCFG", "parser/predictive."},
+	"lr-slr":               {"grammar.NewCFG", "parser/lr/simple.", "parser/lr.ParsingTable."},
+	"lr-lalr":              {"grammar.NewCFG", "parser/lr/lookahead.", "parser/lr.ParsingTable."},
+	"lr-canonical":         {"grammar.NewCFG", "parser/lr/canonical.", "parser/lr.ParsingTable."},
+	"automata-determinize": {"automata.NewNFA", "automata.NFA.", "automata.DFA."},
+	"hash-api":             {"hash.", "grammar.Hash", "grammar.Eq", "grammar.Cmp", "automata.Hash", "automata.Eq", "automata.Cmp", "parser/lr.HashState", "parser/lr.EqState", "parser/lr.CmpState"},
+	"ordered-tables":       {"symboltable.NewBST", "symboltable.NewAVL", "symboltable.NewRedBlack", "symboltable.bst.", "symboltable.avl.", "symboltable.redBlack."},
+	"tries":                {"trie."},
+	"heaps":                {"heap."},
+	"lexer-input":          {"lexer/input."},
+	"structures":           {"sort.", "radixsort.", "list.", "unionfind."},
+}
+
+type facts struct {
+	Globals []struct {
+		Name    string   `json:"name"`
+		Mutated bool     `json:"mutated"`
+		By      []string `json:"by"`
+	} `json:"globals"`
+}
+
+// flaggedWorkloads reads the facts the extractor wrote for the tree under check (bin/pre-C20 ->
+// /verif/build/c20-facts.json) and returns the workloads that call an API entry from which a mutated
+// package-level variable is reachable, most specific first, plus the names of those variables.
+func flaggedWorkloads() (ws []string, vars []string) {
+	data, err := os.ReadFile("/verif/build/c20-facts.json")
+	if err != nil {
+		return nil, nil
+	}
+	var f facts
+	if json.Unmarshal(data, &f) != nil {
+		return nil, nil
+	}
+	score := map[string]int{}
+	for _, g := range f.Globals {
+		if !g.Mutated {
+			continue
+		}
+		vars = append(vars, g.Name)
+		pkg := g.Name[:strings.LastIndex(g.Name, ".")]
+		for w, prefixes := range apiPrefixes {
+			hit := 0
+			for _, api := range g.By {
+				for _, p := range prefixes {
+					if strings.HasPrefix(api, p) {
+						hit = 1
+						// an entry of the variable's own package is the most direct way to it
+						if strings.HasPrefix(api, pkg+".") {
+							hit = 3
+						}
+					}
+				}
+				if hit == 3 {
+					break
+				}
+			}
+			score[w] += hit
+		}
+	}
+	for w, sc := range score {
+		if sc > 0 {
+			ws = append(ws, w)
+		}
+	}
+	sort.Slice(ws, func(i, j int) bool {
+		if score[ws[i]] != score[ws[j]] {
+			return score[ws[i]] > score[ws[j]]
+		}
+		return ws[i] < ws[j]
+	})
+	sort.Strings(vars)
+	return ws, vars
+}
 
 var (
 	buildOnce sync.Once
@@ -197,6 +281,28 @@ func raceSignature(stderr string) (sig string, first string) {
 	return "race:" + strings.Join(parts, "|"), head
 }
 
+// maxReports: a run that has printed this many race reports is stopped (printing thousands of
+// symbolised reports takes many seconds and adds nothing).
+const maxReports = 300
+
+type cappedReports struct {
+	buf    bytes.Buffer
+	n      int
+	limit  int
+	kill   func()
+	killed bool
+}
+
+func (c *cappedReports) Write(p []byte) (int, error) {
+	c.buf.Write(p)
+	c.n += bytes.Count(p, []byte("WARNING: DATA RACE"))
+	if c.n >= c.limit && !c.killed && c.kill != nil {
+		c.killed = true
+		c.kill()
+	}
+	return len(p), nil
+}
+
 type outcome struct {
 	races   int
 	results string // same-results | differ | panic | nondeterministic-reference | incomplete
@@ -214,16 +320,21 @@ func runWorkload(w string, procs int, seed uint64, iters, k int) (outcome, error
 	cmd := exec.CommandContext(ctx, binPath, "-w", w, "-procs", strconv.Itoa(procs), "-seed", strconv.FormatUint(seed, 10),
 		"-iters", strconv.Itoa(iters), "-k", strconv.Itoa(k))
 	cmd.Env = append(goEnv(), "GORACE=halt_on_error=0 atexit_sleep_ms=0 exitcode=0")
-	var so, se bytes.Buffer
-	cmd.Stdout, cmd.Stderr = &so, &se
+	var so bytes.Buffer
+	se := &cappedReports{limit: maxReports}
+	cmd.Stdout, cmd.Stderr = &so, se
 	t0 := time.Now()
-	err := cmd.Run()
+	err := cmd.Start()
+	if err == nil {
+		se.kill = func() { cmd.Process.Kill() }
+		err = cmd.Wait()
+	}
 	ms := time.Since(t0).Milliseconds()
 	if ctx.Err() != nil {
 		return outcome{}, fmt.Errorf("timeout")
 	}
 	o := outcome{results: "same-results"}
-	stderr := se.String()
+	stderr := se.buf.String()
 	o.races = strings.Count(stderr, "WARNING: DATA RACE")
 	var first string
 	o.sig, first = raceSignature(stderr)
@@ -255,7 +366,14 @@ func runWorkload(w string, procs int, seed uint64, iters, k int) (outcome, error
 			sawDone = true
 		}
 	}
-	if !sawDone || o.done != k {
+	if se.killed {
+		o.results = "aborted"
+		o.detail = fmt.Sprintf("stopped after %d race reports", maxReports)
+	} else if strings.Contains(stderr, "fatal error:") {
+		o.results = "fatal"
+		j := strings.Index(stderr, "fatal error:")
+		o.detail = fmt.Sprintf("the runtime aborted the program: %s", strings.SplitN(stderr[j:], "\n", 2)[0])
+	} else if !sawDone || o.done != k {
 		o.results = "incomplete"
 		o.detail = fmt.Sprintf("exit=%v stdout=%q stderr-tail=%q", err, tail(so.String(), 300), tail(stderr, 600))
 	}
@@ -365,8 +483,45 @@ func header(w string, procs int, seed uint64, iters, k int) string {
 	return fmt.Sprintf("comp=%s procs=%d seed=%d iters=%d k=%d", w, procs, seed, iters, k)
 }
 
+// search is a witness-search round of bin/check: a proof obligation or the correspondence already broke
+// (typically: the regenerated table is no longer empty).  Bounded to about 25 s; the workloads from which
+// the flagged package-level variables are reachable go first, each under several GOMAXPROCS values,
+// goroutine counts and seeds; the round ends at the first failing case.
+func search(run *hx.Run) {
+	deadline := time.Now().Add(25 * time.Second)
+	ws, vars := flaggedWorkloads()
+	run.Stats.Extra["search_flagged_variables"] = vars
+	run.Stats.Extra["search_directed_at"] = ws
+	seen := map[string]bool{}
+	for _, w := range ws {
+		seen[w] = true
+	}
+	for _, w := range Workloads { // then everything else
+		if !seen[w] {
+			ws = append(ws, w)
+		}
+	}
+	r := run.R.Fork("search")
+	type cfg struct{ procs, k, iters int }
+	grid := []cfg{{4, 4, 4}, {1, 3, 3}, {2, 6, 3}, {8, 8, 2}}
+	for pass := 0; time.Now().Before(deadline); pass++ {
+		for _, w := range ws {
+			c := grid[(pass+r.Intn(len(grid)))%len(grid)]
+			res := run.Do(w, hx.Case{Header: header(w, c.procs, r.U64()%1000000, c.iters, c.k), Ops: []string{"run"}}, Exec)
+			if res.BadOp >= 0 || !time.Now().Before(deadline) {
+				return
+			}
+		}
+	}
+}
+
 func Main(run *hx.Run) {
 	run.Stats.Rule = Rule
+	if run.Search {
+		search(run)
+		finishStats(run)
+		return
+	}
 	for _, f := range hx.CorpusFiles("C20") {
 		cs, _ := hx.ReadReplay(f)
 		for _, c := range cs {
@@ -376,6 +531,9 @@ func Main(run *hx.Run) {
 	r := run.R.Fork("schedules")
 	procsChoices := []int{1, 2, 3, 4, 8}
 	do := func(w string, procs int, seed uint64, iters, k int) {
+		if len(run.Stats.Violations) >= 3 {
+			return // the verdict is settled; every further failing case costs several shrinking re-runs
+		}
 		run.Do(w, hx.Case{Header: header(w, procs, seed, iters, k), Ops: []string{"run"}}, Exec)
 	}
 	// the instrument first
@@ -410,6 +568,10 @@ func Main(run *hx.Run) {
 		}
 		run.Stats.Extra["grid"] = "every workload x GOMAXPROCS {1,2,4} x 4 goroutines x 6 iterations"
 	}
+	finishStats(run)
+}
+
+func finishStats(run *hx.Run) {
 	mu.Lock()
 	run.Stats.Extra["race_build_ms"] = buildMillis
 	run.Stats.Extra["workload_runs"] = totalRuns
